@@ -110,3 +110,52 @@ CHECKS["C14"] = dict(
     assumptions=["a byte returned by ReadByte together with an error counts as not delivered (io.ByteReader contract)",
                  "io.Writer implementations must not retain the slice they are given, so a WriterTo may reuse its buffer between writes"],
 )
+
+_E1_ASSUME = ["interleavings are explored at the granularity of hook points (verifPoint) and mock transport/executor calls; finer interleavings (inside copy, inside a Go channel operation) are not",
+              "the mock transport accepts every write while open, buffers until Flush when configured so, and consumes the vector passed to Writev like net.Buffers.WriteTo",
+              "select among several ready cases and sync.Pool reuse are runtime choices the harness does not own; the oracle accepts every outcome the statement allows"]
+
+CHECKS["C01"] = dict(
+    test="TestC01", level="exploration",
+    quick=dict(shards=8, checks=6000, timeout=300),
+    thorough=dict(shards=16, checks=400000, timeout=3000, shrinktime="120s"),
+    rule="cooperative-scheduler cases: channel kind (sync, queued blocking, queued non-blocking; queue 1,2,3,4,8) x buffered/pass-through and "
+         "split-write mock transport x 1-3 (thorough 1-4) writer tasks x 1-4 (1-6) calls over the five low-level entry points, Writev with "
+         "0-4 segments incl. empty ones, payload sizes 0-9, 16, 100, 1023-1025, 2047-2049, 4095-4097, 65535-65537, 70000 x a generated "
+         "schedule (list of task switches, <=200 decisions) optionally preceded by a directed prefix into the sender's flush/release window. "
+         "Oracle: the transport byte stream parsed by call-id table: only successful calls, each once, bytes identical, per-task order, "
+         "real-time order, prefix-closed; (n, err) consistent. Non-trivial = >=2 writers and (>=2 packets queued at some decision, or an "
+         "enqueue while the sender was between its last poll and its release, or a writer blocked on the write lock). Distinct by case hash.",
+    required=["kind:sync", "kind:qblock", "kind:qnonblock", "queue:1", "queue:2", "queue:>2", "batch>=2", "blocked-on-full-queue",
+              "enqueue-in-release-window", "sync-lock-contended", "preempt:>=3", "entry:write1", "entry:writev", "entry:ctxwrite1",
+              "entry:ctxwritev", "entry:writerwrite", "size:0", "size:~1024", "size:class-boundary", "size:>=65535"],
+    assumptions=_E1_ASSUME,
+)
+CHECKS["C02"] = dict(
+    test="TestC02", level="exploration",
+    quick=dict(shards=8, checks=6000, timeout=300),
+    thorough=dict(shards=16, checks=400000, timeout=3000, shrinktime="120s"),
+    rule="same scenario family as C01, biased to queued channels and to directed prefixes that park the sender at send.beforeFlush / "
+         "t.flush / send.beforeRelease / send.afterRelease / around Writev while a writer passes its enqueue; the channel stays open and "
+         "nothing else is done. Oracle at the terminal state of the harness-owned executor (no runnable task, so nothing can change any "
+         "more): every payload whose call reported success has been handed to the transport, no accepted byte is unflushed, no writer is "
+         "parked for ever. Non-trivial = an enqueue happened while the sender was between its last queue poll and its release. Distinct by case hash.",
+    required=["kind:qblock", "kind:qnonblock", "kind:sync", "queue:1", "queue:2", "queue:>2", "enqueue-in-release-window", "multi-enqueue", "sender-restarted"],
+    assumptions=_E1_ASSUME + ["'eventually' is decided as stuck-state detection: every action handed to the executor has run to completion"],
+)
+CHECKS["C10"] = dict(
+    test="TestC10", level="exploration",
+    quick=dict(shards=8, checks=6000, timeout=300),
+    thorough=dict(shards=16, checks=400000, timeout=3000, shrinktime="120s"),
+    env={"GOMAXPROCS": "1"},
+    rule="same scenario family as C01 (all entry points and sizes over every pool class, plus ReadFrom with short-reading sources on "
+         "single-writer cases), where every writer overwrites its buffer with a poison pattern as its very next step after each call "
+         "returns and reuses the same backing array for its next call, and 0-2 scribbler tasks obtain pooled buffers of generated sizes, "
+         "fill their whole capacity with another poison, yield, and put them back; GOMAXPROCS(1) so that sync.Pool hand-over is "
+         "deterministic. Oracle: the bytes the mock transport received (copied at that moment) parse into payloads equal to the snapshot "
+         "taken at call time. Non-trivial = a buffer was poisoned, or a scribbler obtained a buffer, while a payload was still queued or in "
+         "the sender's batch. Distinct by case hash.",
+    required=["poisoned-while-pending", "scribbled-while-pending", "entry:readfrom", "entry:write1", "entry:writev", "entry:ctxwrite1",
+              "entry:ctxwritev", "entry:writerwrite", "kind:qblock", "kind:qnonblock", "size:>=65535", "size:~1024"],
+    assumptions=_E1_ASSUME,
+)
